@@ -383,5 +383,32 @@ def r05_7(ctx):
                  rp.loc(calls[0])) if extra else ctx.ok(construct, rp.loc(calls[0])))
 
 
+def r05_8(ctx):
+    """R05.8 the pick a loaded file recorded survives the default resolution of the same load: Choice.resolve_defaults()
+    user-sets every member to its *current* value when the choice has a user pick; setting the currently selected
+    (fallback) member to y records it as the pick, so the branch saves `_user_selection` before that loop and restores it
+    afterwards - otherwise a picked member that is merely invisible during the load loses against the fallback for good."""
+    repo = ctx.repo
+    f = repo.func(f"{CORE}:Choice.resolve_defaults")
+    ctx.analysed(f.qual)
+    arms = [n for n in ast.walk(f.node) if isinstance(n, ast.If) and ast.unparse(n.test) in ("self._user_selection is not None", "self._user_selection")]
+    construct = "Choice.resolve_defaults/the recorded pick is restored after the members were user-set"
+    if not arms:
+        ctx.ok(construct + " (no user-pick branch)", f.loc(), nontrivial=False)
+        return
+    arm = arms[0]
+    loops = [n for n in arm.body if isinstance(n, ast.For) and any(isinstance(c, ast.Call) and ast.unparse(c.func).endswith(("set_value_and_source", ".set_value")) for c in ast.walk(n))]
+    if not loops:
+        ctx.ok(construct + " (members are not user-set any more)", f.loc(arm), nontrivial=False)
+        return
+    i = arm.body.index(loops[0])
+    saved = {n.targets[0].id for n in arm.body[:i] if isinstance(n, ast.Assign) and isinstance(n.targets[0], ast.Name) and ast.unparse(n.value) == "self._user_selection"}
+    restored = [n for st in arm.body[i + 1:] for n in ast.walk(st) if isinstance(n, ast.Assign) and ast.unparse(n.targets[0]) == "self._user_selection"
+                and isinstance(n.value, ast.Name) and n.value.id in saved]
+    (ctx.ok(construct, f.loc(restored[0])) if restored else
+     ctx.bad(construct, "the loop sets the currently selected member to y through set_value(), which makes *it* the user's pick: a picked member that "
+             "is invisible while the file is loaded is no longer selected when it becomes visible", f.loc(loops[0])))
+
+
 def rules():
-    return [("R05.7", r05_7, 9), ("R05.1", r05_1, 2), ("R05.2", r05_2, 4), ("R05.3", r05_3, 3), ("R05.4", r05_4, 3), ("R05.5", r05_5, 6), ("R05.6", r05_6, 9)]
+    return [("R05.8", r05_8, 1), ("R05.7", r05_7, 9), ("R05.1", r05_1, 2), ("R05.2", r05_2, 4), ("R05.3", r05_3, 3), ("R05.4", r05_4, 3), ("R05.5", r05_5, 6), ("R05.6", r05_6, 9)]
